@@ -303,6 +303,8 @@ class Builder:
             if nm in ("dependsOnVariable", "isConstant"):
                 a = self.opaque_bool(f, s, env)
                 return one(("bool", a, False))
+            if nm == "str" and (n.get("callee") or "").startswith(("std::basic_ostringstream", "std::basic_stringstream")):
+                return one(("str", "?"))
             raise Unsupported("method %s" % n.get("callee"))
         if k == "CallExpr":
             cal = n.get("callee") or ""
@@ -330,10 +332,18 @@ class Builder:
                     inner = [c for c in f.kids(a) if f.stmts[f.strip(c)]["k"] in ("CXXConstructExpr",)]
                     if inner:
                         c = f.strip(inner[0])
-                        return self.construct(f, f.stmts[c].get("ctorClass"), f.stmts[c]["args"], env, facts, this, depth, c)
+                        cl = f.stmts[c].get("ctorClass")
+                        # the constructor's class is printed without template arguments: take them from the type of the new-expression
+                        nt = (f.stmts[a].get("t") or "").rstrip(" *")
+                        if "<" in nt and "<" not in (cl or ""):
+                            cl = nt
+                        return self.construct(f, cl, f.stmts[c]["args"], env, facts, this, depth, c)
                 return self.ev(f, n["args"][0], env, facts, this, depth)
-            if cls.startswith("std::basic_string"):
+            if cls.startswith("std::basic_string") and not cls.startswith("std::basic_stringstream"):
                 return one(("str", "?"))
+            if cls.startswith(("std::basic_ostringstream", "std::basic_stringstream")):
+                # a local stream used to format the text of a numeric leaf: not part of the expression tree
+                return one(("stream",))
             raise Unsupported("construction of %s" % cls)
         if k == "CXXBindTemporaryExpr" or k == "MaterializeTemporaryExpr":
             return self.ev(f, f.kids(s)[0], env, facts, this, depth)
